@@ -130,6 +130,9 @@ void parsec_atomic_rwlock_rdlock(parsec_atomic_rwlock_t *L)
     w = parsec_atomic_fetch_add_int32(&L->rin, RINC) & WBITS;
     if( w != 0 ) {
         while( w == (L->rin & WBITS) )
+#if defined(ICLDISCO_PARSEC_VERIF)
+            PARSEC_VERIF_SPIN()
+#endif
             if( count++ > 1000 )
               nanosleep( &ts, NULL );
     }
@@ -149,12 +152,18 @@ void parsec_atomic_rwlock_wrlock(parsec_atomic_rwlock_t *L)
     struct timespec ts = { .tv_sec = 0, .tv_nsec = 100 };
     ticket = parsec_atomic_fetch_inc_int32(&L->win);
     while( L->wout != ticket )
+#if defined(ICLDISCO_PARSEC_VERIF)
+            PARSEC_VERIF_SPIN()
+#endif
         if( count++ > 1000 )
             nanosleep( &ts, NULL );
     w = PRES | (ticket & PHID);
     ticket = parsec_atomic_fetch_add_int32(&L->rin, w);
     count = 0;
     while( L->rout != ticket )
+#if defined(ICLDISCO_PARSEC_VERIF)
+            PARSEC_VERIF_SPIN()
+#endif
         if( count++ > 1000 )
             nanosleep( &ts, NULL );
     parsec_atomic_rmb(); // acquire
